@@ -115,28 +115,83 @@ std::string serialize(const tobject& object)
 // model / feature / tensor); after a successful read it must be observationally the written object, i.e. serialize to
 // the very same bytes (seeded changes C15/4, C15/5: an "early exit" / "avoid reallocating" shortcut in a reader keeps
 // stale state of the destination while reporting success)
+// what a destination serialises to (a null factory pointer: nothing)
 template <class tobject>
-void reuse_roundtrip(const char* kind, const std::string& bytes, tobject used)
+std::string dest_bytes(const tobject& object)
 {
+    return serialize(object);
+}
+template <class tobject>
+std::string dest_bytes(const std::unique_ptr<tobject>& object)
+{
+    return object ? serialize(object) : std::string{};
+}
+
+static long g_reuse = 0;
+
+// every such read is also a line for the STATEFUL reader model (C15_Dest_Defs.read_into):
+//   REUSE spec | bytes of the destination before the read | stream | verdict | bytes of the destination afterwards
+template <class tobject>
+void reuse_roundtrip(const std::string& spec, const std::string& bytes, tobject used)
+{
+    const char* kind = spec.c_str();
+    std::string before;
+    try
+    {
+        before = dest_bytes(used);
+    }
+    catch (const std::exception&)
+    {
+        return;
+    }
+    ++g_reuse;
     try
     {
         std::istringstream stream(bytes);
         if (!::nano::read(stream, used))
         {
+            std::printf("REUSE %s | %s | %s | R | -\n", kind, hex(before).c_str(), hex(bytes).c_str());
             FAIL("ROUNDTRIP-REUSED %s: reading a valid stream into a used destination failed hex=%s", kind, hex(bytes).c_str());
             return;
         }
-        const auto again = serialize(used);
+        const auto again = dest_bytes(used);
+        std::printf("REUSE %s | %s | %s | A | %s\n", kind, hex(before).c_str(), hex(bytes).c_str(), hex(again).c_str());
         if (again != bytes)
         {
-            FAIL("ROUNDTRIP-REUSED %s: the destination keeps stale state: re-serialized hex=%s written hex=%s", kind,
-                 hex(again).c_str(), hex(bytes).c_str());
+            FAIL("ROUNDTRIP-REUSED %s: the destination keeps stale state: re-serialized hex=%s written hex=%s dest hex=%s", kind,
+                 hex(again).c_str(), hex(bytes).c_str(), hex(before).c_str());
         }
     }
     catch (const std::exception& e)
     {
+        std::printf("REUSE %s | %s | %s | X | -\n", kind, hex(before).c_str(), hex(bytes).c_str());
         FAIL("ROUNDTRIP-REUSED %s: exception %s hex=%s", kind, e.what(), hex(bytes).c_str());
     }
+}
+
+// a read that FAILS half-way (a strict prefix of a valid stream) into a used destination: failure must be reported; the
+// state the destination is left in is printed for the model (C15_Dest_Defs.rd), it is NOT required to be the old one
+//   HALF spec | destination before | truncated stream | verdict | destination afterwards
+template <class tobject>
+void half_read(const std::string& spec, const std::string& prefix, tobject used)
+{
+    const auto before = dest_bytes(used);
+    char       verdict = 'R';
+    try
+    {
+        std::istringstream stream(prefix);
+        if (::nano::read(stream, used))
+        {
+            verdict = 'A';
+            FAIL("TRUNC %s strict prefix of %zu bytes accepted into a used destination hex=%s", spec.c_str(), prefix.size(), hex(prefix).c_str());
+        }
+    }
+    catch (const std::exception&)
+    {
+        verdict = 'X';
+    }
+    std::printf("HALF %s | %s | %s | %c | %s\n", spec.c_str(), hex(before).c_str(), hex(prefix).c_str(), verdict,
+                hex(dest_bytes(used)).c_str());
 }
 
 // soft RLIMIT_AS = current virtual size + 4 MiB while corrupted streams are read (plain build only): absurd size
@@ -403,22 +458,36 @@ void one_tensor(const char* tname, size_t max_elems)
         }
     }
 
+    std::ostringstream spec;
+    spec << "tensor:" << R << ":" << sizeof(tscalar) << ":" << (scalar_traits<tscalar>::is_signed_int ? 1 : 0) << ":" << tname;
+
     // re-used destinations: the previous tensor of this type and rank; the same element count in another shape
     // (dimensions reversed; for empty tensors another empty shape); a one-element tensor
     {
         static tensor_mem_t<tscalar, R> prev;
-        reuse_roundtrip("tensor", bytes, prev);
+        reuse_roundtrip(spec.str(), bytes, prev);
         auto rdims = dims;
         std::reverse(rdims.begin(), rdims.end());
-        reuse_roundtrip("tensor", bytes, tensor_mem_t<tscalar, R>(rdims));
+        tensor_mem_t<tscalar, R> reversed(rdims);
+        reversed.full(static_cast<tscalar>(3));
+        reuse_roundtrip(spec.str(), bytes, reversed);
         std::array<tensor_size_t, R> zdims{};
         for (size_t i = 0; i < R; ++i) zdims[i] = (i + 1 == R) ? 0 : 3;
-        reuse_roundtrip("tensor", bytes, tensor_mem_t<tscalar, R>(zdims));
+        reuse_roundtrip(spec.str(), bytes, tensor_mem_t<tscalar, R>(zdims));
+        // failing reads (header cut, payload cut in the middle of an element / after the first element) into the
+        // reversed shape (same element count: the buffer is kept) and into the previous tensor
+        const size_t hdr = 20 + 4 * R;
+        for (const size_t cut : {size_t{7}, hdr - 1, hdr, hdr + sizeof(tscalar), hdr + sizeof(tscalar) + sizeof(tscalar) / 2, bytes.size() - 1})
+        {
+            if (cut < bytes.size())
+            {
+                half_read(spec.str(), bytes.substr(0, cut), reversed);
+                half_read(spec.str(), bytes.substr(0, cut), prev);
+            }
+        }
         prev = tensor;
     }
 
-    std::ostringstream spec;
-    spec << "tensor:" << R << ":" << sizeof(tscalar) << ":" << (scalar_traits<tscalar>::is_signed_int ? 1 : 0) << ":" << tname;
     tensor_info_t ti;
     ti.is_tensor = true;
     ti.rank      = R;
@@ -571,7 +640,11 @@ static void all_parameters()
             }
             {
                 static parameter_t prev;
-                reuse_roundtrip("parameter", bytes, prev);
+                reuse_roundtrip("param", bytes, prev);
+                // a destination of the same kind with another (longer / shorter) name, and every strict prefix cut at
+                // a field boundary region into the previous parameter
+                reuse_roundtrip("param", bytes, random_parameter("a-rather-long-stale-name", kind));
+                reuse_roundtrip("param", bytes, random_parameter("s", 6));
                 prev = param;
             }
             process("param", bytes, make_reader<parameter_t>([] { return parameter_t{}; }), param_info(param));
@@ -613,6 +686,13 @@ static void all_configurables()
             bool               ok = false;
             try { ok = static_cast<bool>(::nano::read(stream, other)) && same_parameters(object, other); } catch (const std::exception&) {}
             if (!ok) FAIL("ROUNDTRIP configurable: re-read parameters differ hex=%s", hex(bytes).c_str());
+        }
+        {
+            // the registered parameters of the destination are the destinations of the element reads
+            static configurable_t prev;
+            reuse_roundtrip("config", bytes, prev);
+            reuse_roundtrip("config", bytes, random_configurable());
+            prev = object;
         }
         std::ostringstream info;
         info << "nparams=" << object.parameters().size();
@@ -677,11 +757,11 @@ static void all_features()
                 reuse_roundtrip("feature", ebytes, feature_t{"named"}.sclass(strings_t{"cat", "dog", "cow"}));
                 reuse_roundtrip("feature", ebytes, feature_t{"named"}.mclass(strings_t{"x", "y"}));
             }
-            for (const auto& text : {std::string{}, std::string{"a"}, std::string(300, 'z')})
+            for (const auto& text : {std::string{}, std::string{"a"}, std::string{"wxyz"}, std::string(300, 'z')})
             {
                 std::ostringstream out;
                 ::nano::write(out, text);
-                for (const auto& stale : {std::string{}, std::string{"stale"}, std::string(1000, 'q')})
+                for (const auto& stale : {std::string{}, std::string{"stale"}, std::string{"abcdef"}, std::string(1000, 'q')})
                 {
                     std::string        dest = stale;
                     std::istringstream in(out.str());
@@ -690,7 +770,14 @@ static void all_features()
                         FAIL("ROUNDTRIP-REUSED string: wrote %zu bytes, read back %zu bytes into a destination holding %zu bytes", text.size(),
                              dest.size(), stale.size());
                     }
+                    reuse_roundtrip("string", out.str(), stale);
+                    // failing reads: the size field cut, the characters cut (C15_dest_failure_not_atomic: "abcdef" <- 4,"xy")
+                    for (size_t cut = 0; cut < out.str().size() && cut < 8; ++cut) half_read("string", out.str().substr(0, cut), stale);
                 }
+            }
+            {
+                const std::string witness{"\x04\x00\x00\x00xy", 6};
+                half_read("string", witness, std::string{"abcdef"});
             }
         }
         std::ostringstream info;
@@ -774,6 +861,16 @@ void factory_objects(const char* kind)
                 }
                 if (!ok) FAIL("ROUNDTRIP %s/%s: re-read object differs hex=%s", kind, id.c_str(), hex(bytes).c_str());
             }
+            {
+                // destinations: the previously serialised object of this base (another type id), a randomized object of
+                // the same type, nothing
+                static std::unique_ptr<tbase> prev;
+                reuse_roundtrip(std::string("object:") + kind, bytes, prev ? prev->clone() : std::unique_ptr<tbase>{});
+                auto same = tbase::all().get(id);
+                randomize(*same);
+                reuse_roundtrip(std::string("object:") + kind, bytes, std::move(same));
+                prev = object->clone();
+            }
             process(std::string("object:") + kind, bytes,
                     make_reader<std::unique_ptr<tbase>>([] { return std::unique_ptr<tbase>{}; }),
                     "id=" + id + ";nparams=" + std::to_string(object->parameters().size()));
@@ -818,6 +915,6 @@ int main(int argc, char** argv)
                     { process(spec, bytes, rd, info); },
                     [](const std::string& what) { FAIL("%s", what.c_str()); });
 
-    std::printf("DONE objects=%ld fails=%ld mode=%s%s\n", g_objects, g_fail, mode.c_str(), g_corrupt ? " corrupt" : "");
+    std::printf("DONE objects=%ld reuse=%ld fails=%ld mode=%s%s\n", g_objects, g_reuse, g_fail, mode.c_str(), g_corrupt ? " corrupt" : "");
     return 0;
 }
